@@ -331,7 +331,9 @@ impl TlsDemux {
                 Some(String::from(auth_creds)),
             )
         } else {
-            return Err(format!("Unexpected SNI {}", sni));
+            // The name may be `<credentials>.<host>` with a host we do not serve
+            // (e.g. mistyped): the error ends up in the log
+            return Err(format!("Unexpected SNI {}", net_utils::scrub_sni(sni)));
         };
 
         Ok(ConnectionMeta {
